@@ -53,6 +53,7 @@ pub struct WorldSc {
 pub fn generate(seed: u64, instrs: &[String]) -> WorldSc {
     let mut r = Rng::new(derive(seed, "world"));
     let mut ctx = GenCtx::new(instrs);
+    ctx.api_literals = true;
     // swarm: per-run focus on a handful of instructions
     if r.chance(2, 3) {
         for _ in 0..(1 + r.below(4)) {
